@@ -25,6 +25,21 @@ def ns(d):
 def run_one(job):
     from moPepGen import cli
     op = job['op']
+    if op == 'seq':
+        return dict(ok=True, steps=[run_one(j) for j in job['steps']])
+    if op == 'genindex':
+        kw = job['args']
+        a = argparse.Namespace(
+            command='generateIndex', genome_fasta=Path(kw['genome_fasta']), annotation_gtf=Path(kw['annotation_gtf']),
+            proteome_fasta=Path(kw['proteome_fasta']), reference_source=None, output_dir=Path(kw['output_dir']),
+            gtf_symlink=False, force=False, invalid_protein_as_noncoding=False, cleavage_rule='trypsin',
+            cleavage_exception=None, miscleavage='0', min_mw='500.', min_length=7, max_length=25, quiet=True, debug_level=1)
+        try:
+            with contextlib.redirect_stderr(io.StringIO()):
+                cli.generate_index(a)
+            return dict(ok=True)
+        except BaseException as ex:
+            return dict(ok=False, error=type(ex).__name__ + ': ' + str(ex)[:300])
     a = ns(job['args'])
     res = dict(ok=False, error='')
     try:
